@@ -28,6 +28,7 @@ func checkC19(p *Prog, r *Report) {
 	ruleEvalNodesBuiltOnce(p, a, r, "R-C19-BUILT")
 	ruleC19Unwrap(p, a, r)
 	ruleC19EndArgs(p, a, r)
+	ruleTagArgsConsumed(p, a, r, "R-C19-TAGARGS")
 }
 
 // chainLoop describes a loop over a slice of filter-call structs in an execution function.
